@@ -50,6 +50,8 @@ WORKLOADS = {
     "stream": ("w_stream.cpp", ()),
     "any_object": ("w_erase.cpp", ()),
     "any_unique": ("w_erase.cpp", ()),
+    "anysnd_sim": ("w_anysnd.cpp", ()),
+    "anysnd_inplace": ("w_anysnd.cpp", ()),
     "coro": ("w_coro.cpp", ()),
     "io_epoll": ("w_io.cpp", ("fdlayer", "uring")),
     "io_uring": ("w_io.cpp", ("fdlayer", "uring")),
@@ -360,6 +362,9 @@ PROPS = {
             B("w_erase.cpp", "any_unique", quick=3, thorough=45, oracles=["c18."] + RT_ALL),
             B("w_expr.cpp", "expr", quick=10, thorough=150, params="faults=1,wrap=1", oracles=["c18.", "c05.outcome", "c01.", "c04.child-not-stopped", "c04.started-after-stop", "c12.query"] + RT_LIVE),
             B("w_stream.cpp", "stream", quick=5, thorough=60, oracles=["c13.", "c01."] + RT_LIVE),
+            B("w_anysnd.cpp", "anysnd_sim", quick=4, thorough=60, oracles=["c18.", "c01.", "c02.", "c04."] + RT_ALL),
+            B("w_anysnd.cpp", "anysnd_inplace", quick=3, thorough=45, oracles=["c18.", "c01.", "c02.", "c04."] + RT_ALL),
+            B("w_anysnd.cpp", "anysnd_sim", cfg="S17r", quick=3, thorough=45, oracles=["c18.", "c01.", "c02.", "c04."] + RT_ALL),
         ],
         level_text=("(b) Seeded operation sequences on three basic_any_object<24,8,RequireNoexceptMove,...> wrappers (both settings) and any_unique "
                     "wrappers: in-place construction from small / large(heap) / throwing-move / over-aligned tracked types, value assignment, "
@@ -370,7 +375,12 @@ PROPS = {
                     "double-free/leak checks. (a) any_sender_of<> inserted as an identity node at random positions of the sender interpreter "
                     "(wrap=1): completions equal the wrapped sender's (c18.transparent), a stop request reaches the wrapped leaves through the "
                     "adapted token (C04 leaf oracles), the wrapper forwards exactly its declared query set (C12 oracle: only the stop token); "
-                    "type_erased_stream is an identity node in two of the C13 pipelines (same oracles as C13)."),
+                    "type_erased_stream is an identity node in two of the C13 pipelines (same oracles as C13). "
+                    "any_sender_of<> is also driven directly (w_anysnd) against a receiver whose stop token is a third-party token or an "
+                    "inplace_stop_token: 1-3 operations in sequence on one stop source, the wrapped sender's connect() throwing or operator new failing "
+                    "while the erased operation is built, stop requested before connect / after a failed connect / racing the completion: a failed "
+                    "connect leaves no callback registered on the receiver's source (what a direct connect of the wrapped sender does), nothing started or leaked; a "
+                    "successful one delivers the wrapped result, forwards stop, and leaves no registration behind."),
         level_note=("Honest scope: (b) has no concurrency or time in it; what this family contributes is seeded op+fault sequences against a model, "
                     "the poisoned arena and replay/shrinking. Not driven: any_ref, any_scheduler/any_scheduler_ref equality, swap."),
         real=["basic_any_object (inline and heap storage, invalid_obj parking)", "any_unique", "any_sender_of<> (+inplace_stop_token_adapter_subscription)", "type_erased_stream"],
